@@ -101,6 +101,9 @@ class Machine:
 
     def __init__(self, stores=None):
         self.root = os.path.join(SHM, f'vf-{os.getpid()}-{next(_RUN_SEQ)}')
+        # a directory of that name can only be the left-over of a killed process whose pid
+        # has been reused
+        shutil.rmtree(self.root, ignore_errors=True)
         os.makedirs(self.root)
         self.db_dir = os.path.join(self.root, 'db')
         os.makedirs(self.db_dir)
